@@ -25,13 +25,14 @@ func init() {
 			"(R10) authReset deletes the session named by the presented cookie on every path on which the request carries one; " +
 			"(R11) sibling agreement (A14): the paired functions consist of the same operations - calls with their constant arguments, comparisons (canonical under negation and operand order), field reads/writes, channel operations, returns, each with the number of conditions it depends on - once the instance-specific names are mapped onto each other; logging is ignored, named differences are listed in the table: the authBearer ~ authBasic endpoints; " +
 			"(R12) after checkAuth has written an error response (http.Error) every reachable return reports handled = true, so the handler never runs behind an error answer; " +
+			"(R13) no AuthToken field is assigned from the other field of a token (Read from Write or the reverse); (R14) decision table of parseAPIPermission: \"\" and anyone -> PermitAnyone, user -> PermitUser, admin -> PermitAdmin; " +
 			"NOT decided: net/http and gorilla/mux behaviour, the header grammar beyond guards, session TTL timing.",
 		Rules: []ruleFn{c12R1, c12R2, c12R3, c12R4, c12R5, c12R6,
 			lockRuleFor("C12-R7", 12, []string{"api"}, []string{}, map[string]string{}),
 			repoErrRuleFor("C12-R8", 30, func(c *Ctx, fn *ssa.Function) bool {
 				return short(fn.Pkg.Pkg.Path()) == "api" && !inFile(c, fn, "api/database.go")
 			}, map[string]string{"api.(*mainHandler).ServeHTTP / modules.Module.RunWorker": "the request worker reports its own errors to the client and the module error channel; ServeHTTP has nobody to return to", "api.start / api.updateAPIKeys": "updateAPIKeys logs invalid keys itself and always returns nil"}),
-			c12R9, c12R10, func(c *Ctx, r *Report) { siblingRule(c, r, "C12-R11", sibAuth) }, c12R12},
+			c12R9, c12R10, func(c *Ctx, r *Report) { siblingRule(c, r, "C12-R11", sibAuth) }, c12R12, c12R13, c12R14},
 	})
 }
 
